@@ -36,6 +36,12 @@ theorem Segment_pack_idempotent (g : Seg) (h : g.kind = .rs232 → g.sync_bytes.
       | ok sb => simp only [Seg.setPayload, hbs, h1, h2]
   · rw [NPDSegment_pack_preserves_fields g hk]
 
+/-- non-vacuity: an RS-232 segment with two sync bytes, a full status word and one data byte satisfies the bound and packs -/
+example :
+    let g : Seg := { Seg.fresh .rs232 with block_status := 0xFFFF, sync_bytes := [1, 2], data := [9] }
+    (g.kind = .rs232 → g.sync_bytes.length < 8) ∧ ∃ b, (Seg.pack g).2 = .ok b ∧ b.length = 16 :=
+  ⟨fun _ => by decide, _, rfl, rfl⟩
+
 /-- with eight sync bytes (the count does not fit its three bits) a second `pack` returns other bytes:
     0x0008 becomes 0x0010 in the status word -/
 example : (match (Seg.pack (Seg.pack { Seg.fresh .rs232 with sync_bytes := [0, 0, 0, 0, 0, 0, 0, 0] }).1).2,
@@ -205,6 +211,16 @@ theorem Segment_unpack_state_independent (t u : Seg) (buf r : Bytes) (hk : t.kin
           · simp
     | [] | [_] | [_, _] | [_, _, _] | _ :: _ :: _ :: _ :: _ :: _ => simp
 
+/-- non-vacuity: an RS-232 segment object holding three stale sync bytes decodes a 16-byte segment (two sync bytes)
+    followed by one more byte -/
+example :
+    let t : Seg := { Seg.fresh .rs232 with sync_bytes := [7, 7, 7], data := [1, 2], timedelta := 5 }
+    let u : Seg := Seg.fresh .rs232
+    t.kind = u.kind ∧
+    (Seg.unpack t [0, 0, 0, 0, 0, 13, 0, 0, 255, 250, 1, 2, 9, 255, 255, 255, 0xEE]).2 = .ok [0xEE] ∧
+    (Seg.unpack t [0, 0, 0, 0, 0, 13, 0, 0, 255, 250, 1, 2, 9, 255, 255, 255, 0xEE]).1.sync_bytes = [1, 2] :=
+  ⟨rfl, rfl, rfl⟩
+
 /-- a successful `NPD.unpack` leaves the object in the state a new object would be in: every header
     attribute and the segment list are rebuilt from the bytes -/
 theorem NPD_unpack_state_independent (t u : State) (buf : Bytes) (h : (unpack t buf).2 = .ok ()) :
@@ -213,5 +229,15 @@ theorem NPD_unpack_state_independent (t u : State) (buf : Bytes) (h : (unpack t 
   simp only [unpack]
   repeat' split
   all_goals simp
+
+/-- non-vacuity (`packSegs_idem`, `NPD_pack_idempotent`, `NPD_unpack_state_independent`): a packet with one 4-byte
+    segment packs to 32 bytes; an object that holds two stale segments decodes it and ends with one -/
+example :
+    let a : State := { fresh with datatype := some 0xD0, mcastaddr := some 0xEB000001, timestamp := some 7,
+                                  segments := [{ Seg.fresh .base with timedelta := 3, payload := [1, 2, 3, 4], segmentlen := 12 }] }
+    let t : State := { fresh with sequence := 9, segments := [Seg.fresh .rs232, Seg.fresh .acq] }
+    (∀ g ∈ a.segments, g.kind = .rs232 → g.sync_bytes.length < 8) ∧
+    ∃ b, (pack a).2 = .ok b ∧ b.length = 32 ∧ (unpack t b).2 = .ok () ∧ (unpack t b).1.segments.length = 1 :=
+  ⟨by decide, _, rfl, rfl, rfl, rfl⟩
 
 end Acra.Props.C13
